@@ -60,7 +60,7 @@ package cookie
 //@ func isSessionCookieName
 //@ safety
 //@ nomod
-//@ prop C11 C10 C19
+//@ prop C11 C10 C19 C03
 //@ requires[config:cookie-name-at-most-256-bytes] len(cookieName) <= 256
 //@ ensures[the-base-name-is-a-session-cookie-name] name == cookieName ==> result
 //@ ensures[only-names-save-can-emit] result ==> name == cookieName || (called(splitCookieName) && name == ret(splitCookieName)
@@ -70,7 +70,7 @@ package cookie
 // bounded/session_cookie_names_test.go.txt (labelled bounded, not counted as proved).
 
 //@ func (*SessionStore).Clear
-//@ prop C11 C18 C10
+//@ prop C11 C18 C10 C03
 //@ loop 0 ghost nsess int init 0 step ite(ret(isSessionCookieName), nsess + 1, nsess)
 //@ loop 0 ghost ndel int init 0 step ite(called(http.SetCookie), ndel + 1, ndel)
 //@ loop 0 invariant[one-deletion-per-presented-session-cookie] nsess == ndel
@@ -146,7 +146,7 @@ package cookie
 //@ at call joinCookies assert[joins-the-collected-parts-under-the-base-name] arg(joinCookies, 0) == cookies && arg(joinCookies, 1) == cookieName && len(cookies) > 0
 
 //@ func (*SessionStore).setSessionCookie
-//@ prop C10 C18 C12
+//@ prop C10 C18 C12 C03
 //@ at call http.SetCookie#0 assert[sets-every-part] arg(http.SetCookie#0, 0) == rw && ret1(makeSessionCookie) == nil
 //@     && arg(http.SetCookie#0, 1) == ret0(makeSessionCookie)[rangeindex + 1]
 //@ at call isSessionCookieName assert[asks-about-each-presented-cookie-under-the-configured-name] arg(isSessionCookieName, 0) == s.Cookie.Name
